@@ -370,6 +370,22 @@ def run_check(prop_id, tier, seed):
         ev["transitions"] += r["transitions"]
         ev["configs"].append({k: r[k] for k in ("cfg", "module", "states", "transitions", "wall_s")} | {"tour": j[2]})
     log("TLC: %d configs, %d distinct states, %d transitions (%.1fs)" % (len(results), ev["states"], ev["transitions"], time.time() - t0))
+    # ---- phase 1b: inductive invariants for unbounded parameters (Apalache), where a module offers one
+    for prim in prop["prims"]:
+        for a in PRIMS[prim].get("apalache", []):
+            ta = time.time()
+            for (init, inv, length) in a["steps"]:
+                wd = os.path.join(work, "apalache-%s-%s" % (a["module"], init))
+                os.makedirs(wd, exist_ok=True)
+                cmd = ["timeout", "900", "apalache-mc", "check", "--out-dir=" + wd, "--cinit=" + a["cinit"], "--init=" + init,
+                       "--inv=" + inv, "--length=%d" % length, os.path.join(SPEC, a["module"] + ".tla")]
+                p = subprocess.run(cmd, capture_output=True, text=True, cwd=wd)
+                if "EXITCODE: OK" not in p.stdout:
+                    raise ToolError("Apalache does not confirm %s as inductive (%s, length %d):\n%s" % (inv, init, length, p.stdout[-3000:] + p.stderr[-1000:]))
+            ev["configs"].append({"cfg": "%s: %s inductive for every value of the constants satisfying %s (Apalache: %s)" % (
+                                      a["module"], a["steps"][-1][1], a["cinit"], ", ".join("%s/length %d" % (i, l) for (i, _, l) in a["steps"])),
+                                  "module": a["module"], "states": 0, "transitions": 0, "wall_s": round(time.time() - ta, 1), "tour": False})
+            log("Apalache: %s inductive (%s) in %.1fs" % (a["steps"][-1][1], a["module"], time.time() - ta))
 
     # ---- phase 2: build harness against /repo's working tree, generate tours, replay
     build_harness()
